@@ -4,12 +4,13 @@ to the reference semantics of the operand."""
 from __future__ import annotations
 
 from cirkit.symbolic.circuit import StructuralPropertyError
+from cirkit.symbolic.registry import OperatorSignatureNotFound
 
 from cvf import circuit_check, families
 from cvf import terms as T
 from cvf.harness import FLAGS, case_hash
 
-REFUSALS = (StructuralPropertyError, NotImplementedError)
+REFUSALS = (StructuralPropertyError, NotImplementedError, OperatorSignatureNotFound)
 
 
 def run_pipe_case(desc, seed, tier, flags=None, batches=None):
